@@ -177,10 +177,12 @@ func runReverse(c *Case) *Obs {
 		}
 	}()
 
+	var burstGate chan struct{} // non-nil while an invoke_burst is being armed: the callers start together
 	invoke := func(k int, id string, timeoutMs int, delay int, method string) {
 		if method == "" || method == "0" {
 			method = "echo"
 		}
+		gate := burstGate
 		done := make(chan struct{})
 		parent, cancel := context.WithCancel(context.Background())
 		rs.mu.Lock()
@@ -190,6 +192,9 @@ func runReverse(c *Case) *Obs {
 		pl := string(payload(c.ID, k, delay))
 		go func() {
 			defer close(done)
+			if gate != nil {
+				<-gate
+			}
 			e := ev("call-begin")
 			e.K, e.C = k, provIndex[id]
 			rs.add(e)
@@ -241,6 +246,14 @@ func runReverse(c *Case) *Obs {
 			if p := lateProviders[str(arg(1))]; p != nil {
 				go p.Listen()
 			}
+		case "invoke_burst": // ["invoke_burst", first k, n, provider id]: n callers make their calls to that provider at the same instant
+			burstGate = make(chan struct{})
+			for j := 0; j < num(arg(2)); j++ {
+				invoke(num(arg(1))+j, str(arg(3)), 0, 0, "echo")
+			}
+			time.Sleep(2 * time.Millisecond)
+			close(burstGate)
+			burstGate = nil
 		case "hold_appended": // every caller stops right after its call is queued for the provider (hook)
 			revHoldAppended()
 		case "release_appended":
